@@ -177,7 +177,7 @@ def abstract_seeds(sc):
     nr, nc = sc['shape']
     if is_bipartite(sc):
         if sc['values'] is not None:
-            vr, vc = sc['values'], None
+            vr, vc = sc['values'], sc['values_col']      # `values` is the alias of `values_row`
         else:
             vr, vc = sc['values_row'], sc['values_col']
         if vr is None and vc is None:
@@ -663,7 +663,7 @@ def bip_scenarios(rng, b, count, ctx=None):
         if mode == 'values' and rs:
             kw['values'] = make_form(rng.choice(['arr', 'list', 'dict']), nr, rs, rng)
             if rng.random() < 0.3 and cs:
-                kw['values_col'] = make_form('dict', nc, cs, rng)     # ignored by the code when `values` is given
+                kw['values_col'] = make_form('dict', nc, cs, rng)     # `values` = row seeds, together with column seeds
         fb = (nr == nc and not any(k in kw for k in ('values_row', 'values_col'))) or rng.random() < 0.2
         all_seeds = dict(rs)
         all_seeds.update(cs)
@@ -720,7 +720,8 @@ def degenerate_scenarios(rng):
         # rectangular / forced bipartite refusals
         for kw in ({'values_row': ['list', [1, 2, 3]]}, {'values_col': ['list', [1, 2]]}, {'values_row': ['dict', [[2, 1]]]},
                    {'values_col': ['dict', [[3, 1]]]}, {'values': ['arr', [1, 0, 2, 1, 1]]}, {},
-                   {'values': ['dict', [[0, 2]]], 'values_row': ['dict', [[1, 1]]]}, {'values_col': ['dict', [[-1, 4]]]}):
+                   {'values': ['dict', [[0, 2]]], 'values_row': ['dict', [[1, 1]]]}, {'values_col': ['dict', [[-1, 4]]]},
+                   {'values': ['dict', [[0, 2]]], 'values_col': ['dict', [[1, 5]]]}, {'values': ['list', [3, -1]], 'values_col': ['arr', [-1, -1, 4]]}):
             out.append(scenario(algo, b, n_iter=2, **kw))
         for cont in ('dense', 'coo', 'csc', 'lil'):
             out.append(scenario(algo, a, values=['dict', [[0, 1], [2, 0]]], n_iter=2, container=cont))
